@@ -113,3 +113,6 @@ From VModel Require Import Version.
 From VProofs Require Import TieC14.
 Theorem c14_tie_products : P_OpenSSH = product_OpenSSH /\ P_Dropbear = product_DropbearSSH /\ P_LibSSH = product_LibSSH.
 Proof. exact tie_products. Qed.
+(* the availability filter reads version tokens with Algorithm.get_ssh_version as it reads now (T1c translation) *)
+Theorem c14_tie_get_ssh_version : forall v, get_ssh_version v = src_get_ssh_version v.
+Proof. exact tie_get_ssh_version. Qed.
